@@ -152,6 +152,7 @@ _STRAIN = st.integers(900, 1100).map(lambda k: k / 1000.0)
 _SHEAR = st.integers(-100, 100).map(lambda k: k / 1000.0)
 _PBCI = st.integers(0, 7)
 _TEN = st.integers(0, 9)
+_SUB = st.integers(0, 21)
 
 
 def _strained(draw, c0):
@@ -197,16 +198,16 @@ def _near_partner(draw, V, s0):
 @st.composite
 def pairs_cases(draw, incell_share=7, near_share=0, routes=True, allow_cart=True):
     """general generator of DESIGN C02: cells as C01; 70 % of the point sets in [0,1]^3 (incl. faces), 30 % in [-3,4]^3"""
-    sub = draw(st.integers(0, 19))
+    sub = draw(_SUB)
     cart = False
     if sub <= 1 and allow_cart:
         cell = draw(_INTCELLS)
         kind = 'intcart'
         cart = True
-    elif sub <= 2:
+    elif sub <= 4:
         cell = draw(_DYCELLS)
         kind = 'dyadic'
-    elif sub <= 6:
+    elif sub <= 8:
         cell = draw(_CELLS_MILD)
         kind = 'mild'
     else:
@@ -252,18 +253,31 @@ _MODE = st.sampled_from(['same', 'strained', 'strained', 'other'])
 _SMALL = st.integers(-3000, 3000).map(lambda k: k / 10000.0)
 
 
+_ITYPE = st.sampled_from(['0', '0', '1', 'both'])
+_IFORM = st.sampled_from(['intlist', 'int64', 'int32'])
+_BUILD = st.sampled_from(['abs', 'abs', 'scale', 'safecopy', 'sharedbox'])
+_SHIFT3 = st.lists(st.integers(-1, 1), min_size=3, max_size=3)
+_DHOW = st.sampled_from(['vects=', 'set_vects', 'set_avect', 'sys_box_set', 'sys_box_set_scale', 'sys_box_set_scale', 'wrap'])
+_DSETPOS = st.sampled_from(['slice', 'attr', 'prop', 'prop_scaled', 'view', 'keep'])
+
+
+def _whole(x):
+    return [float(round(v)) for v in x]
+
+
 @st.composite
 def displacement_cases(draw):
+    """'rel0'/'rel1' are relative coordinates of cell0/cell1, or (when 'cart') Cartesian positions of which the ones of
+    system 'itype' ('0', '1', 'both') are whole numbers handed to Atoms in the integer form 'iform' (Atoms then STORES
+    them as integers); 'build': how the two System objects are made; 'hist': None or the cells the two Box objects describe
+    first ('cell0', 'cell1'), whether displacement() is called (and judged) in that state, and the public ways in which the
+    same Box / System objects are then turned into the systems of the case."""
     c0 = draw(_CELLS_MILD if draw(_BOOL) else _CELLS)
     mode = draw(_MODE)
     if mode == 'same':
         c1 = dict(c0)
     elif mode == 'strained':
-        c1 = dict(c0)
-        for k in ('lx', 'ly', 'lz'):
-            c1[k] = round(c0[k] * draw(_STRAIN), 6)
-        c1['xy'] = round(c0['xy'] + draw(_SHEAR) * c0['lx'], 6)
-        c1['yz'] = round(c0['yz'] + draw(_SHEAR) * c0['ly'], 6)
+        c1 = _strained(draw, c0)
     else:
         c1 = draw(_CELLS_MILD)
     n = draw(st.integers(1, 6))
@@ -277,5 +291,30 @@ def displacement_cases(draw):
             rel1.append(draw(_PT_IN))
         else:   # displaced and wrapped back into the cell: the realistic use of displacement()
             rel1.append([round((rel0[i][j] + draw(_SMALL)) % 1.0, 6) for j in range(3)])
-    return {'cell0': c0, 'cell1': c1, 'mode': mode, 'rel0': rel0, 'rel1': rel1, 'ref': draw(_REF),
-            'pbc_other': draw(_PBCI)}
+    case = {'cell0': c0, 'cell1': c1, 'mode': mode, 'rel0': rel0, 'rel1': rel1, 'ref': draw(_REF),
+            'pbc_other': draw(_PBCI), 'cart': False, 'itype': None, 'iform': None, 'build': draw(_BUILD), 'hist': None}
+    if draw(_TEN) < 2:
+        # whole-number Cartesian positions (lattice sites counted in whole units) in cells whose edges are not whole numbers
+        V0, o0 = gens.cell_vects(c0), gens.cell_origin(c0)
+        V1, o1 = gens.cell_vects(c1), gens.cell_origin(c1)
+        itype = draw(_ITYPE)
+        P0, P1 = [], []
+        for i in range(n):
+            delta = np.array([3 * draw(_SMALL) for _ in range(3)]) + np.array(draw(_SHIFT3), dtype=float) @ V1
+            if itype == '1':
+                q1 = np.array(_whole(np.array(rel1[i]) @ V1 + o1))
+                q0 = np.round(q1 - delta, 6)
+            else:
+                q0 = np.array(_whole(np.array(rel0[i]) @ V0 + o0))
+                q1 = np.round(q0 + delta, 6)
+                if itype == 'both':
+                    q1 = np.array(_whole(q1))
+            P0.append([float(v) for v in q0])
+            P1.append([float(v) for v in q1])
+        case.update(cart=True, itype=itype, iform=draw(_IFORM), rel0=P0, rel1=P1, build='abs')
+    if draw(_TEN) < 4:
+        case['hist'] = {'cell0': _strained(draw, c0) if draw(_BOOL) else draw(_CELLS_MILD),
+                        'cell1': _strained(draw, c1) if draw(_BOOL) else draw(_CELLS_MILD),
+                        'how0': draw(_DHOW), 'how1': draw(_DHOW), 'warm': draw(_BOOL), 'wpbc': draw(_PBCI),
+                        'setpos': draw(_DSETPOS)}
+    return case
